@@ -2164,7 +2164,7 @@ func (w *World) evalFnBool(fn *ssa.Function, eval func(ssa.Value) (bool, bool), 
 				unknown = true
 				return
 			}
-			v, ok := w.evalBool(t.Results[0], st, eval, depth)
+			v, ok := w.evalBool(retResult(t, 0), st, eval, depth)
 			switch {
 			case !ok:
 				unknown = true
@@ -2216,8 +2216,14 @@ func (w *World) pureFn(fn *ssa.Function, d int) bool {
 				if _, local := x.Addr.(*ssa.Alloc); !local {
 					ok = false
 				}
-			case *ssa.MapUpdate, *ssa.Send, *ssa.Go, *ssa.Defer, *ssa.Panic:
+			case *ssa.MapUpdate, *ssa.Send, *ssa.Go, *ssa.Panic:
 				ok = false
+			case *ssa.Defer:
+				// `defer mtx.RUnlock()`: taking and releasing the record's own lock
+				// does not change what the function computes
+				if !mutexCall(x.Common().StaticCallee()) {
+					ok = false
+				}
 			case ssa.CallInstruction:
 				c := x.Common()
 				if _, isB := c.Value.(*ssa.Builtin); isB {
@@ -2227,6 +2233,7 @@ func (w *World) pureFn(fn *ssa.Function, d int) bool {
 				switch {
 				case cal == nil:
 					ok = false
+				case mutexCall(cal):
 				case w.InModule(cal):
 					if !w.pureFn(cal, d+1) {
 						ok = false
@@ -2241,6 +2248,19 @@ func (w *World) pureFn(fn *ssa.Function, d int) bool {
 	}
 	w.pureMemo[fn] = ok
 	return ok
+}
+
+// mutexCall: Lock/Unlock/RLock/RUnlock of sync.Mutex / sync.RWMutex.
+func mutexCall(f *ssa.Function) bool {
+	if f == nil || f.Pkg == nil || f.Pkg.Pkg.Path() != "sync" || f.Signature.Recv() == nil {
+		return false
+	}
+	switch f.Name() {
+	case "Lock", "Unlock", "RLock", "RUnlock":
+		n := derefNamed(f.Signature.Recv().Type())
+		return n != nil && (n.Obj().Name() == "Mutex" || n.Obj().Name() == "RWMutex")
+	}
+	return false
 }
 
 func pureLibrary(f *ssa.Function) bool {
